@@ -117,13 +117,19 @@ def mk_glyph(name):
 # names that map to the same directory / file stem: illegal characters, case variants (upper case X
 # is written X_), trailing period, reserved words (glyph files only), names beyond 255 bytes
 LAYER_COLLISIONS = [["Sketch/1", "Sketch:1", "Sketch*1"], ["A", "a_"], ["x.", "x_", "x "], ["Bg?", "Bg|", 'Bg"', "Bg<", "Bg>"],
-                    ["L" * 300, "Short"], ["Foo.Bar", "FOO.BAR"], ["con", "_con"]]
+                    ["L" * 300, "Short"], ["Foo.Bar", "FOO.BAR"], ["con", "_con"],
+                    # three and more names on one stem: the clash counter has to skip numbers already handed out,
+                    # with an upper-case letter in the stem (the taken set holds lower-cased names) and without
+                    ["A*", "A?", "A:", "A|", 'A"'], ["X.", "X ", "X_", "X*"], ["AB", "Ab_", "a_B", "a_b_"],
+                    ["a*", "a?", "a:", "a|", 'a"'], ["y.", "y ", "y_", "y*"], ["k*l", "k?l", "k:l", "k|l"]]
 # class long_name_clash (F1 of C07): two names whose file names are clipped to the same 255-byte stem get a
 # clash counter appended AFTER clipping: a 257-byte file name, which the file system refuses
 LONG_LAYER_CLASH = ["L" * 300, "L" * 299 + "M", "L" * 298 + "MM"]
 LONG_GLYPH_CLASH = ["g" * 300, "g" * 299 + "h"]
 GLYPH_COLLISIONS = [["a/b", "a:b", "a*b"], ["A", "a_"], ["con", "_con"], ["nul.alt", "_nul.alt"], ["x.", "x_"],
-                    ["g" * 300, "gshort"], ["T_h", "t_H_"], ["AE", "Ae_", "aE_"]]
+                    ["g" * 300, "gshort"], ["T_h", "t_H_"], ["AE", "Ae_", "aE_"],
+                    ["A*", "A?", "A:", "A|", 'A"'], ["AB", "Ab_", "a_B", "a_b_"], ["Q/R", "Q:R", "Q*R", "Q<R", "Q>R"],
+                    ["a*", "a?", "a:", "a|", 'a"'], ["k*l", "k?l", "k:l", "k|l"], ["m/n", "m:n", "m*n", "m<n", "m>n"]]
 
 
 # long names of multi-byte characters: 240..320 UTF-8 bytes but far fewer than 255 characters, so the clip to 255
@@ -187,15 +193,17 @@ def long_name_clash(font, err):
     return clash([l["name"] for l in font["layers"]]) or any(clash([g["name"] for g in l["glyphs"]]) for l in font["layers"])
 
 
-def history_fonts(base_fonts, rng):
+def history_fonts(base_fonts, rng, long_names=True):
     """fonts whose layer / glyph names collide in their directory / file stems, to be reached through
     varied API histories (harness --varied)"""
     out = []
     for i, f0 in enumerate(base_fonts):
         f = copy.deepcopy(f0)
         have = {l["name"] for l in f["layers"]}
-        for fam in rng.sample(LAYER_COLLISIONS, rng.randint(1, 2)):
-            for n in rng.sample(fam, rng.randint(2, len(fam))):
+        lfams = [fm for fm in LAYER_COLLISIONS if long_names or max(len(x) for x in fm) < 100]
+        gfams = [fm for fm in GLYPH_COLLISIONS if long_names or max(len(x) for x in fm) < 100]
+        for fam in rng.sample(lfams, rng.randint(1, 2)):
+            for n in rng.sample(fam, rng.randint(min(3, len(fam)) if rng.random() < 0.5 else 2, len(fam))):
                 if n not in have and n != "public.default":
                     have.add(n)
                     f["layers"].append({"name": n, "dir": None, "color": None, "lib": {},
@@ -203,13 +211,13 @@ def history_fonts(base_fonts, rng):
         for l in f["layers"]:
             if rng.random() < 0.6:
                 gh = {g["name"] for g in l["glyphs"]}
-                for fam in rng.sample(GLYPH_COLLISIONS, rng.randint(1, 2)):
-                    for n in rng.sample(fam, rng.randint(2, len(fam))):
+                for fam in rng.sample(gfams, rng.randint(1, 2)):
+                    for n in rng.sample(fam, rng.randint(min(3, len(fam)) if rng.random() < 0.5 else 2, len(fam))):
                         if n not in gh:
                             gh.add(n)
                             l["glyphs"].append(mk_glyph(n))
                 l["glyphs"].sort(key=lambda g: g["name"])
-        if rng.random() < 0.3:
+        if long_names and rng.random() < 0.3:
             add_multibyte_names(f, rng)
         out.append(f)
     return out
